@@ -11,6 +11,7 @@ import (
 	"go/types"
 	"os"
 	"path/filepath"
+	"reflect"
 	"sort"
 	"strings"
 	"sync"
@@ -344,6 +345,10 @@ func (f *Func) Info() *types.Info { return f.Pkg.TypesInfo }
 
 // Site builds a site record for a node inside the function.
 func (f *Func) Site(n ast.Node, note string) Site {
+	// a vertex without syntax of its own (the head of a range-over-integer loop): the function stands for it
+	if n == nil || reflect.ValueOf(n).Kind() == reflect.Ptr && reflect.ValueOf(n).IsNil() {
+		n = f.Decl
+	}
 	return Site{Pos: f.Prog.Pos(n.Pos()), Func: f.Key, Note: note}
 }
 
